@@ -1,6 +1,7 @@
 /-
   C14 — series accounting matches the payloads that were actually scraped.
 -/
+import Kvass.Pins.Sidecar
 import Kvass.Proofs.Sidecar
 
 namespace Kvass.Props.C14
